@@ -245,6 +245,9 @@ func main() {
 		L(10, 20, 11, 21),             // far from the origin (with the next one: drawings not containing it)
 		L(12.5, 22.5, 10.25, 20.75),
 		L(-7, -3, -9, -5),
+		L(2, 3, 2, 3),                  // degenerate: still one LINE / one <line>
+		L(4, 1, 4+5e-10, 1+5e-10),      // shorter than 1e-9
+		L(1e-10, 2e-10, 3e-10, -1e-10), // a drawing at 1e-10 scale
 	}
 	l2 := lists(menu2, vlib.Pick(c, 3, 4))
 	chunk2 := map[int][]int{}
@@ -379,7 +382,7 @@ func main() {
 		Rule:        "states = (list, writer path) pairs written and decoded with go3mf.OpenReader / dxf.FromFile / encoding/xml; transitions = vertices / lines compared; non-trivial = non-empty lists",
 		Samples:     samples,
 		Exhaustive:  true,
-		Bounds:      map[string]any{"menu_size": 8, "list_length": "0..3 (4 thorough), with repetition, ordered; plus numbered lists of 135 / 390 / 700 items written in 8 chunk patterns around the buffer thresholds (128 segments, 256 triangles)"},
+		Bounds:      map[string]any{"menu_size": "8 triangles / 11 segments (incl. a degenerate and two sub-nanometre segments)", "list_length": "0..3 (4 thorough), with repetition, ordered; plus numbered lists of 135 / 390 / 700 items written in 8 chunk patterns around the buffer thresholds (128 segments, 256 triangles)"},
 		Assumptions: []string{"3MF vertices are compared with a tolerance of 1.5e-4 (four decimals plus the 1e-6 de-duplication grid of the mesh builder)", "DXF coordinates to the format's six decimals, SVG to its two decimals"},
 	})
 }
